@@ -6,6 +6,7 @@ fresh-construction equivalence for every override set, aliasing snapshots
 hash/dict-key checks on independently built equal pairs (including pairs that
 are equal across int/float).
 """
+import os
 import random
 from fractions import Fraction
 
@@ -541,6 +542,26 @@ def none_cases(ctx):
         ctx.fail('None maps to None', 'thaw-none-raised', case, repr(exc))
 
 
+def overlap_jobs():
+    """copy() with overrides in one thread while another thread constructs and copies messages of the same types (steady
+    state, one pre-emption anywhere): each copy equals a fresh construction with its own values."""
+    from ..coldstart import msg_want
+
+    def full(t, a):
+        d = {n: (midi1.DEFAULTS.get(n, 0) if n != 'data' else []) for n in midi1.ATTRS[t]}
+        d.update(a)
+        return d
+
+    def mk(fn, t, a):
+        return {'fn': fn, 'type': t, 'attrs': a, 'want': msg_want(t, full(t, a))}
+    j1 = [mk('copy', 'note_on', {'note': 61}), mk('copy', 'control_change', {'control': 7, 'value': 9}), mk('copy', 'sysex', {'data': [1, 2]}),
+          mk('copy', 'pitchwheel', {'pitch': -5})]
+    j2 = [mk('ctor', 'note_on', {'note': 5, 'velocity': 3, 'channel': 2}), mk('copy', 'note_on', {'velocity': 0}),
+          mk('ctor', 'control_change', {'channel': 4}), mk('from_dict', 'sysex', {'data': [7]}), mk('copy', 'pitchwheel', {'channel': 9})]
+    mods = ['mido.messages.messages', 'mido.messages.checks', 'mido.messages.specs']
+    return [{'modules': mods, 'fresh': False, 'jobs': [j1, j2], 'k': 1}, {'modules': mods, 'jobs': [j1[:2], j2[:3]], 'k': 1}]
+
+
 ALIVE = []          # frozen messages of earlier cases stay alive for the whole shard, as they do in an application
 
 
@@ -624,6 +645,9 @@ def run(ctx):
         n += user_subclass_cases(ctx)
     if ctx.shard == 1 % ctx.nshards:
         n += hash_twin_cases(ctx)
+    if os.environ.get('VERIF_ENVMODE', 'default') in ('default', 'c-locale'):
+        from .. import coldstart
+        n += coldstart.phase(ctx, overlap_jobs(), 'copy(**ov) == fresh construction', kind='cold', offset=2)
     ctx.count('cases', n)
 
 
@@ -638,6 +662,9 @@ def replay(ctx, case):
         unknown_meta_variants(ctx)
     elif case['kind'] == 'unchecked-values':
         unchecked_value_cases(ctx)
+    elif case['kind'] == 'cold':
+        from .. import coldstart
+        coldstart.replay(ctx, case, 'copy(**ov) == fresh construction')
     elif case['kind'] == 'hash-twins':
         hash_twin_cases(ctx)
     elif case['kind'] == 'user-subclass':
